@@ -72,7 +72,9 @@ theorem step_ordered (cfg : Cfg) (s : St) (op : Op) : Ordered s.ev (step cfg s o
       cases ok
       · exact Ordered.refl _
       · simp only [Bool.not_true, Bool.false_eq_true, ↓reduceIte]
-        rw [finish_ev]; exact persist_ordered cfg s _ _ _ rfl
+        split
+        · exact Ordered.refl _
+        · rw [finish_ev]; exact persist_ordered cfg s _ _ _ rfl
   | addMany sec rs =>
     simp only [step]
     cases Policy.addMany none (s.pol.get sec) rs with
@@ -80,7 +82,9 @@ theorem step_ordered (cfg : Cfg) (s : St) (op : Op) : Ordered s.ev (step cfg s o
       cases ok
       · exact Ordered.refl _
       · simp only [Bool.not_true, Bool.false_eq_true, ↓reduceIte]
-        rw [finish_ev]; exact persist_ordered cfg s _ _ _ rfl
+        split
+        · exact Ordered.refl _
+        · rw [finish_ev]; exact persist_ordered cfg s _ _ _ rfl
   | remove sec r =>
     simp only [step]
     cases Policy.remove (s.pol.get sec) r with
